@@ -29,35 +29,77 @@ def tp_key(tp):
     return f"reg:{tp.get('context')}.{tp.get('component')}:{tp.get('testcase')}"
 
 
-def tp_spec(tp):
+def tp_double(tp):
+    """the precision variant the registry declares for this testcase (the *_f64 twins have it True)"""
+    return bool(tp.get("_enable_double_precision_test_setting", tp.get("enable_double_precision", False)))
+
+
+def tp_spec(tp, dp=None):
+    """input specs as tests/t_generator.make_test_function builds them (float specs follow the precision variant)"""
     import jax
+    import jax.numpy as jnp
     import numpy as np
-    shapes, vals = tp.get("input_shapes"), tp.get("input_values")
-    if vals is not None:
-        return [jax.ShapeDtypeStruct(np.asarray(v).shape, np.asarray(v).dtype) for v in vals]
+    dp = tp_double(tp) if dp is None else dp
+    shapes, vals, dts = tp.get("input_shapes"), tp.get("input_values"), tp.get("input_dtypes")
     if shapes is not None:
-        dts = tp.get("input_dtypes")
-        return [jax.ShapeDtypeStruct(tuple(s), dts[i]) if dts else tuple(s) for i, s in enumerate(shapes)]
+        spec = []
+        for i, sh in enumerate(shapes):
+            sh = tuple(sh) if isinstance(sh, (list, tuple)) else (sh,)
+            if dts:
+                dt = dts[i]
+                if dp and np.issubdtype(np.dtype(dt), np.floating):
+                    dt = jnp.float64
+                spec.append(jax.ShapeDtypeStruct(sh, dt))
+            else:
+                spec.append(jax.ShapeDtypeStruct(sh, jnp.float64 if dp else jnp.float32)
+                            if all(isinstance(d, (int, np.integer)) for d in sh) else sh)
+        return spec
+    if vals is not None:
+        spec = []
+        for v in vals:
+            a = np.array(v)
+            spec.append(jax.ShapeDtypeStruct(a.shape, jnp.float64 if (dp and np.issubdtype(a.dtype, np.floating)) else a.dtype))
+        return spec
     return None
 
 
-def tp_callable(tp, dp):
-    import jax.numpy as jnp
+def tp_callable(tp, dp=None):
+    """instantiate the testcase's callable in the x64 mode of its precision variant"""
+    import jax
+    dp = tp_double(tp) if dp is None else dp
     fn = tp["callable"]
-    if hasattr(fn, "with_dtype"):
-        fn = fn.with_dtype(jnp.float64 if dp else jnp.float32).instantiate()
+    if hasattr(fn, "instantiate"):
+        prev = bool(jax.config.jax_enable_x64)
+        if prev != dp:
+            jax.config.update("jax_enable_x64", dp)
+        try:
+            fn = fn.instantiate()
+        finally:
+            if prev != dp:
+                jax.config.update("jax_enable_x64", prev)
     return fn
 
 
 def export_tp(tp, **over):
+    """export a registry testcase with the settings its metadata declares (mirrors tests/t_generator:
+    precision variant, layout flags, normalization mode, opset, input/output names); `over` overrides"""
     from jax2onnx import to_onnx
-    dp = bool(over.pop("enable_double_precision", tp.get("enable_double_precision", False)))
-    spec = tp_spec(tp)
+    import inspect
+    dp = bool(over.pop("enable_double_precision", tp_double(tp)))
+    fn = tp_callable(tp, dp)
+    spec = tp_spec(tp, dp)
     if spec is None:
-        raise ValueError("no input spec")
-    opset = over.pop("opset", None) or tp.get("opset_version") or 23
-    return to_onnx(tp_callable(tp, dp), spec, input_params=tp.get("input_params"), opset=opset,
-                   enable_double_precision=dp, **over)
+        if inspect.signature(fn).parameters:
+            raise ValueError("no input spec")
+        spec = []
+    kw = dict(input_params=tp.get("input_params", {}), opset=tp.get("opset_version", 23) or 23,
+              enable_double_precision=dp, inputs_as_nchw=tp.get("inputs_as_nchw"), outputs_as_nchw=tp.get("outputs_as_nchw"),
+              input_names=tp.get("input_names"), output_names=tp.get("output_names"),
+              normalization_mode=tp.get("normalization_mode", "auto"))
+    if over.get("opset") is None:
+        over.pop("opset", None)
+    kw.update(over)
+    return to_onnx(fn, spec, **kw)
 
 
 # ---------------------------------------------------------------- hand-written programs
